@@ -106,3 +106,15 @@ Definition run_percent_raw (psn pagesize : Z) (has_rollup : bool) (rmode : Z) (r
         | None => jv_outcome jv_ratio (@Exc (Z * Z) ValueError)
         | Some _ => jnone
         end) ].
+
+(* memory_percent over a history of virtual_memory() calls and MemTotal changes; totals in
+   bytes; _TOTAL_PHYMEM starts as None (fresh interpreter) *)
+Definition run_percent_hist (pagesize : Z) (ex : list bytes) (ms : list mapping) (r : statm)
+           (kernel0 : Z) (ops : list hop) : jv :=
+  let smaps := k_smaps ms in
+  let mi := with_file Alive (FContent (k_statm r)) (memory_info pagesize) in
+  let mfi := memory_full_info Alive pagesize false FENOENT (FContent smaps) (FContent (k_statm r)) in
+  JL [ jpack smaps; JB (k_statm r);
+       JL (map (jv_outcome jv_ratio) (run_hist mi mfi None kernel0 ops));
+       (if forallb (wf_kernel (ex_of ex)) ms && wf_statm r && hist_ok ops && (0 <? kernel0)
+        then JL (map (jv_outcome jv_ratio) (spec_hist (spec_full pagesize r ms) None kernel0 ops)) else jnone) ].
